@@ -13,6 +13,8 @@ ops
 * `reqout <uid> <outcome>`                    → `ok`   for the request with that uid the hook does this instead
 * `ov hand <uid> path=<p>`                    → `handed` (the request went through HandleAdmissionEvent: its task is
      built, the hook run has not begun) | `answered` (no hook: the request is answered at once)
+* `ov prep <uid> path=<p>`                    → `prepared` (Hook.Run wrote the run's files — the binding context file among
+     them —, the hook process has not read its binding context yet) | `answered`
 * `ov start <uid> path=<p>`                   → `started` (a hook run was prepared and its process runs, started with
      this request) | `handed-another-request` (its process found another request in its binding context) | `answered`
 * `ov write <uid>` · `ov exit <uid>`          → `ok`   the overlapping run writes its response file · ends
@@ -45,6 +47,8 @@ structure St where
   /-- run number → link (hook × binding) number, and the binding contexts of the runs -/
   links : List (Nat × Nat) := []
   cs : CtxSt := .init
+  /-- runs whose context file has been prepared -/
+  prepared : List Nat := []
 
 def parseFile (s : String) : Option FileContent :=
   match s.splitOn ";" with
@@ -117,11 +121,26 @@ def ctxSlot (st : St) : Nat → Nat :=
       | some e => e.2
       | none => 0)
 
-/-- `HandleEvent` for the request `uid` routed to `(h, b)`: a new run, its context handed over -/
+def ctxFile (st : St) : Nat → Nat :=
+  responseFileName perRunContextFile
+    (fun r => match st.runs.find? (fun e => e.2.1 == r) with
+      | some e => e.2.2
+      | none => 0)
+
+/-- `HandleEvent` for the request `uid` routed to `(h, b)` (unless it went through it before): a new
+run, its context handed over -/
 def handOver (st : St) (uid : String) (h : Nat) (b : Binding) : St × Nat :=
-  let n := st.runs.length + 1
-  let st := { st with runs := st.runs ++ [(uid, n, h)], links := st.links ++ [(n, linkNo st h b)] }
-  ({ st with cs := ctxStep (ctxSlot st) st.cs (.hand n ⟨h, b, uid⟩) }, n)
+  match st.runs.find? (fun e => e.1 == uid) with
+  | some e => (st, e.2.1)
+  | none =>
+    let n := st.runs.length + 1
+    let st := { st with runs := st.runs ++ [(uid, n, h)], links := st.links ++ [(n, linkNo st h b)] }
+    ({ st with cs := ctxStep (ctxSlot st) (ctxFile st) st.cs (.hand n ⟨h, b, uid⟩) }, n)
+
+/-- `prepareBindingContextJsonFile` of run `n` (unless done before) -/
+def prepareCtx (st : St) (n : Nat) : St :=
+  if st.prepared.contains n then st
+  else { st with cs := ctxStep (ctxSlot st) (ctxFile st) st.cs (.prepare n), prepared := n :: st.prepared }
 
 def uidOf : Request → String
   | .ok uid => uid
@@ -228,6 +247,16 @@ def step (st : St) (toks : List String) : St × String :=
       match route st.hooks (detect path).1 (detect path).2 with
       | none => (st, "answered")
       | some (h, b) => ((handOver st (dec uid) h b).1, "handed")
+  | ["ov", "prep", uid, p] =>
+    match kv? "path" [p] with
+    | none => (st, "bad-op")
+    | some p =>
+      let path := (dec p).toList
+      match route st.hooks (detect path).1 (detect path).2 with
+      | none => (st, "answered")
+      | some (h, b) =>
+        let (st, n) := handOver st (dec uid) h b
+        (prepareCtx st n, "prepared")
   | ["ov", "start", uid, p] =>
     match kv? "path" [p] with
     | none => (st, "bad-op")
@@ -236,11 +265,10 @@ def step (st : St) (toks : List String) : St × String :=
       match route st.hooks (detect path).1 (detect path).2 with
       | none => (st, "answered")
       | some (h, b) =>
-        -- handed over before (`ov hand`), or now
-        let (st, n) := match st.runs.find? (fun e => e.1 == dec uid) with
-          | some e => (st, e.2.1)
-          | none => handOver st (dec uid) h b
-        let st := { st with cs := ctxStep (ctxSlot st) st.cs (.start n) }
+        -- handed over and prepared before (`ov hand`, `ov prep`), or now
+        let (st, n) := handOver st (dec uid) h b
+        let st := prepareCtx st n
+        let st := { st with cs := ctxStep (ctxSlot st) (ctxFile st) st.cs (.start n) }
         let st := { st with fs := fileStep (fileName st) st.fs (.prepare n) }
         if (st.cs.given n).getLast? == some (some ⟨h, b, dec uid⟩) then (st, "started")
         else (st, "handed-another-request")
